@@ -17,7 +17,8 @@ RULE = ("Hypothesis draws a series of 2..60 points (six spacing kinds), one of t
         "in the documented ranges, n in 2..64, a target rule, and whether append_one_sample(make_periodic) runs "
         "first; the public pipeline Weaver(x,y)[.append_one_sample].recreate_from_average(...).integral_match(...) "
         "is run and every original interval's mean is recomputed. Plus a deterministic sweep: 19 bundled datasets "
-        "x 6 strategies x n in {2,10,24} (thorough also {3,7,64}) x both rules. Non-trivial = the recreated series "
+        "x 6 strategies x n in {2,10,24} (thorough also {3,7,64}) x both rules; dynamic_range: values of order one with "
+        "1..3 bursts 1e7..1e13 times larger, each interval judged on its own scale only. Non-trivial = the recreated series "
         "is not already matched (some interval needs a correction > 1e-6 of its scale); distinct = distinct input.")
 ASSUMPTIONS = ["default reference rule (rectangle) and default fixed-point search (closest), as in the documented "
                "pipeline", "tolerance as in C01 (1e-9 local + 1e-12 global + end-weight rounding leak), block means "
